@@ -55,6 +55,52 @@ def ident_like(t, depth=0):
     return False
 
 
+LIST_CATS = ('patelems', 'fieldpats', 'fieldvals', 'args', 'arms')
+
+
+def check_separator(cx, fn, s, rep, rule='TPL-PARSE'):
+    """pieces appended (`extend`) to a stream that lands in a comma-separated list are concatenated: each piece parses on its own
+    (TPL-PARSE) with or without a trailing comma, but two of them in a row only if the first ends with one.  Every such piece ends
+    with `,` — or is the rest pattern `..`, or a block-bodied match arm."""
+    if s.cat not in LIST_CATS:
+        return
+    lf = getattr(s, 'leaf', None)
+    ev = getattr(lf, 'event', None) if lf is not None else None
+    if ev is None or ev.kind != 'mcall' or ev.method != 'extend':
+        return
+    from ..terms import strip_refs
+    r = strip_refs(ev.recv)
+    d = ev.scope.lookup(r['path']['s']) if r['k'] == 'Path' and len(r['path']['segs']) == 1 else None
+    if d is None:
+        return
+    def_loops = set(c['id'] for c in d.ctx if c['k'] in ('for', 'while', 'loop'))
+    in_loop = any(c['k'] in ('for', 'while', 'loop') and c['id'] not in def_loops for c in ev.ctx)
+    fills = [e for e in ev.fn_events if e.kind == 'mcall' and e.method in ('extend', 'append_all') and e is not ev and
+             strip_refs(e.recv)['k'] == 'Path' and e.scope.lookup(strip_refs(e.recv)['path']['s']) is d] if hasattr(ev, 'fn_events') else None
+    if fills is None:
+        fw = cx.fw(s.tmpl.fn)
+        fills = [e for e in fw.events if e.kind == 'mcall' and e.method in ('extend', 'append_all') and e is not ev and
+                 strip_refs(e.recv)['k'] == 'Path' and len(strip_refs(e.recv)['path']['segs']) == 1 and e.scope.lookup(strip_refs(e.recv)['path']['s']) is d]
+    if not in_loop and not fills:
+        return
+    t = s.tmpl.tokens
+    if not t:
+        return
+    last = t[-1]
+    ok = last['t'] == 'p' and last['s'] == ','
+    if not ok and s.cat in ('patelems', 'fieldpats') and len(t) >= 2 and all(x['t'] == 'p' and x['s'] == '.' for x in t[-2:]):
+        ok = True
+    if not ok and s.cat == 'arms' and last['t'] == 'g' and last.get('d') == '{':
+        ok = True
+    inst = '%s|sep|%s|%s' % (fn.qname, S_sha(s.tmpl.text()), s.cat)
+    if ok:
+        rep.ok(rule, inst)
+    else:
+        rep.bad(rule, fn.qname, 'separator=%s' % d.name,
+                'the piece `%s` appended to `%s` does not end with `,`: followed by another piece of this %s list the generated code does not parse' % (
+                    s.tmpl.text()[:60], d.name, s.cat), s.tmpl.file, s.tmpl.line)
+
+
 def check_empty_match(cx, facts, fn, sites, rep):
     """TPL-EMPTY-MATCH: `match self { #arms }` whose arms are accumulated per variant has no arm for an enum without variants, and a
     match on a reference with no arms does not compile (E0004): the emission must be guarded by a non-emptiness test, or the handler
@@ -73,7 +119,7 @@ def check_empty_match(cx, facts, fn, sites, rep):
             continue
         at = facts.atoms(facts.effective_ctx(s.ctx, fw), fw) + facts.atoms(s.tmpl.ctx, fw)
         from ..emptiness import nonempty_evidence
-        guarded = nonempty_evidence(at)
+        guarded = nonempty_evidence(at, cx, fw)
         if not guarded:
             if refusal is None:
                 refusal = False
@@ -124,6 +170,7 @@ def run(cx, tier='quick'):
                    {'file': s.tmpl.file, 'line': s.tmpl.line, 'category': s.cat, 'template': s.tmpl.text()[:120], 'context': ctx_s(s.ctx)[:200]})
             check_opt(cx, facts, fn, s, rep)
             check_arity(cx, fn, s, rep)
+            check_separator(cx, fn, s, rep)
         check_scope(cx, facts, fn, sites, rep)
         check_empty_match(cx, facts, fn, sites, rep)
     rep.extra['sites'] = total
@@ -141,6 +188,11 @@ def run(cx, tier='quick'):
     check_ident_or_index(cx, rep)
     from .scope import check_scopes
     check_scopes(cx, rep, None)
+    from .c14 import include_merge
+    include_merge(cx, rep)
+    # an accepted `method = path` whose path is shadowed by a local of the generated function does not compile
+    from .c19 import check_method_capture
+    check_method_capture(cx, rep)
     rep.floor('TPL-PARSE', 200, '(276 templates today)')
     rep.floor('TPL-OPT', 3, '(4 optional-hole positions today; let-bound sub-templates are inlined into their parent template)')
     rep.floor('TPL-ARITY', 40)
